@@ -16,12 +16,12 @@ Open Scope N_scope.
    old content of the .gitignore is a byte prefix of the new one *)
 Theorem gitignore_append_only :
   forall (RT : Type) (build : env -> gfiles -> option RT) (chk : RT -> bytes -> verdict)
-         (fixed_nl fixed_P5 : bool) (cs : list cmd) (gf : gfiles) (d : gpath),
-    exists suffix, content (run_cmds RT build chk fixed_nl fixed_P5 gf cs) d = content gf d ++ suffix.
-Proof. intros. exact (append_only RT build chk fixed_nl fixed_P5 cs gf d). Qed.
+         (fixed_nl fixed_P5 fixed_sn fixed_em : bool) (cs : list cmd) (gf : gfiles) (d : gpath),
+    exists suffix, content (run_cmds RT build chk fixed_nl fixed_P5 fixed_sn fixed_em gf cs) d = content gf d ++ suffix.
+Proof. intros. exact (append_only RT build chk fixed_nl fixed_P5 fixed_sn fixed_em cs gf d). Qed.
 Check gitignore_append_only :
-  forall RT build chk fixed_nl fixed_P5 cs gf d,
-    exists suffix, content (run_cmds RT build chk fixed_nl fixed_P5 gf cs) d = content gf d ++ suffix.
+  forall RT build chk fixed_nl fixed_P5 fixed_sn fixed_em cs gf d,
+    exists suffix, content (run_cmds RT build chk fixed_nl fixed_P5 fixed_sn fixed_em gf cs) d = content gf d ++ suffix.
 Print Assumptions gitignore_append_only.
 
 (* ================================================================================================
@@ -29,63 +29,132 @@ Print Assumptions gitignore_append_only.
    ================================================================================================ *)
 (* The full statement: after a command, every file target is ignored (reference semantics), whatever
    the .gitignore files contained.  Refuted below, class by class. *)
-Definition C16_full (fixed_P17 fixed_nl fixed_P5 : bool) : Prop :=
+Definition C16_full (fixed_P17 fixed_P35 fixed_nl fixed_P5 fixed_sn fixed_em : bool) : Prop :=
   forall (gf : gfiles) (c : cmd) (f : gpath),
-    supported gf = true -> In f (file_targets c) ->
-    snd (run_cmd rules (xvc_build fixed_P17) (xvc_chk fixed_P17) fixed_nl fixed_P5 gf c) = true ->
-    ignored (fst (run_cmd rules (xvc_build fixed_P17) (xvc_chk fixed_P17) fixed_nl fixed_P5 gf c)) f = true.
+    supported gf = true -> In f (file_targets c) -> valid_path f = true ->
+    snd (run_cmd rules (xvc_build fixed_P17 fixed_P35) (xvc_chk fixed_P17 fixed_P35) fixed_nl fixed_P5 fixed_sn fixed_em gf c) = true ->
+    ignored (fst (run_cmd rules (xvc_build fixed_P17 fixed_P35) (xvc_chk fixed_P17 fixed_P35) fixed_nl fixed_P5 fixed_sn fixed_em gf c)) f = true.
 
-(* What holds: one command.  Outside the two boolean classes K_user_whitelist (the matcher answers
-   Whitelist for the path) and K_engine_mismatch (the matcher answers Ignore where Git does not
-   ignore), with plain names, a date without line break, every .gitignore ending in a line break (or
-   the writer repairing an unterminated last line), no fuel exhaustion, and -- for the rename branch of
-   move -- the P5 repair: the file target is ignored by Git after the command. *)
+(* What holds: one command, every combination of the repairs.  Outside the boolean classes
+   K_user_whitelist (the matcher answers Whitelist for the path), K_engine_mismatch (the matcher answers
+   Ignore where Git does not ignore; empty with fixed_em) and K_special_name (in wf_cmd: every path of the
+   command is path_ok -- a plain name without the escaping of fixed_sn, ANY name with it), with a date
+   without line break, every .gitignore ending in a line break (or the writer repairing an unterminated
+   last line), no fuel exhaustion, and -- for the rename branch of move -- the P5 repair: the file target
+   is ignored by Git after the command. *)
 Theorem tracked_paths_git_ignored :
   forall (RT : Type) (build : env -> gfiles -> option RT) (chk : RT -> bytes -> verdict)
-         (fixed_nl fixed_P5 : bool) (gf : gfiles) (c : cmd) (f : gpath),
-    nl_ok fixed_nl gf -> wf_cmd c = true ->
-    snd (run_cmd RT build chk fixed_nl fixed_P5 gf c) = true ->
+         (fixed_nl fixed_P5 fixed_sn fixed_em : bool) (gf : gfiles) (c : cmd) (f : gpath),
+    nl_ok fixed_nl gf -> wf_cmd fixed_sn c = true ->
+    snd (run_cmd RT build chk fixed_nl fixed_P5 fixed_sn fixed_em gf c) = true ->
     (is_move c = true -> fixed_P5 = true) ->
     In f (file_targets c) ->
-    K_user_whitelist RT build chk fixed_nl gf c f = false ->
-    K_engine_mismatch RT build chk fixed_nl gf c f = false ->
-    ignored (fst (run_cmd RT build chk fixed_nl fixed_P5 gf c)) f = true.
+    K_user_whitelist RT build chk fixed_nl fixed_sn fixed_em gf c f = false ->
+    K_engine_mismatch RT build chk fixed_nl fixed_sn fixed_em gf c f = false ->
+    ignored (fst (run_cmd RT build chk fixed_nl fixed_P5 fixed_sn fixed_em gf c)) f = true.
 Proof. intros. now apply cmd_targets_ignored. Qed.
 Print Assumptions tracked_paths_git_ignored.
+
+(* With repo-patches/75 (names escaped) and repo-patches/76 (Git decides what is ignored already) the
+   classes special-name and engine-mismatch are gone from the statement: for EVERY valid path (any bytes
+   but '/' and NUL in its components, also line breaks), whatever xvc's own matcher makes of the
+   .gitignore files, a file target is ignored after its command unless the matcher reports a whitelisting
+   user pattern (P26, still open). *)
+Theorem tracked_paths_git_ignored_fixed :
+  forall (RT : Type) (build : env -> gfiles -> option RT) (chk : RT -> bytes -> verdict)
+         (fixed_nl fixed_P5 : bool) (gf : gfiles) (c : cmd) (f : gpath),
+    nl_ok fixed_nl gf -> forallb valid_path (cmd_paths c) = true -> has_nl (e_date (cmd_env c)) = false ->
+    snd (run_cmd RT build chk fixed_nl fixed_P5 true true gf c) = true ->
+    (is_move c = true -> fixed_P5 = true) ->
+    In f (file_targets c) ->
+    K_user_whitelist RT build chk fixed_nl true true gf c f = false ->
+    ignored (fst (run_cmd RT build chk fixed_nl fixed_P5 true true gf c)) f = true.
+Proof.
+  intros RT build chk fixed_nl fixed_P5 gf c f Hnl Hv Hd. apply cmd_targets_ignored_fixed; [exact Hnl|].
+  unfold wf_cmd. change (forallb (path_ok true) (cmd_paths c)) with (forallb valid_path (cmd_paths c)).
+  rewrite Hv, Hd. reflexivity.
+Qed.
+Print Assumptions tracked_paths_git_ignored_fixed.
+
+Theorem special_name_class_empty_when_fixed :
+  forall p : gpath, valid_path p = true -> K_special_name true p = false.
+Proof. intros p H. unfold K_special_name. cbn [path_ok]. rewrite H. reflexivity. Qed.
+Print Assumptions special_name_class_empty_when_fixed.
+
+Theorem engine_mismatch_class_empty_when_fixed :
+  forall (RT : Type) (build : env -> gfiles -> option RT) (chk : RT -> bytes -> verdict)
+         (fixed_nl fixed_sn : bool) (gf : gfiles) (c : cmd) (f : gpath),
+    K_engine_mismatch RT build chk fixed_nl fixed_sn true gf c f = false.
+Proof. intros. now apply mism_empty_when_fixed. Qed.
+Print Assumptions engine_mismatch_class_empty_when_fixed.
+
+(* the written line: for a name without line break and final carriage return, `/` ++ escape_name n parses
+   (reference semantics of gitignore, tied to `git check-ignore` by the differential test) to a positive
+   pattern that matches -- among the paths relative to the directory of the .gitignore, files and
+   directories -- exactly [n]; the directory form `/name/` exactly the directory [n] *)
+Theorem escape_matches_exactly :
+  forall n : gname, strict_name n = true ->
+    (exists p, parse_line (c_slash :: escape_name n) = LPat p /\ g_neg p = false /\
+               forall q isdir, pat_match p q isdir = true <-> q = [n]) /\
+    (exists p, parse_line ([c_slash] ++ escape_name n ++ [c_slash]) = LPat p /\ g_neg p = false /\
+               forall q isdir, pat_match p q isdir = true <-> (q = [n] /\ isdir = true)).
+Proof. intros n H. split; [exact (escape_file_line_exact n H) | exact (escape_dir_line_exact n H)]. Qed.
+Print Assumptions escape_matches_exactly.
+
+(* every name (a line break or a final carriage return is written `?`) is ignored through its line *)
+Theorem escape_ignores_name :
+  forall (d : gpath) (n : gname), valid_name n = true ->
+    ignored [(d, c_slash :: escape_name n ++ [c_nl])] (d ++ [n]) = true.
+Proof. intros. now apply escape_line_ignores. Qed.
+Print Assumptions escape_ignores_name.
 
 (* ... and over histories: a file target of ANY command of a history that was outside the classes when
    its command ran is ignored by Git at the END of the history (later commands never un-ignore) *)
 Theorem tracked_paths_git_ignored_history :
   forall (RT : Type) (build : env -> gfiles -> option RT) (chk : RT -> bytes -> verdict)
-         (fixed_nl fixed_P5 : bool) (cs1 : list cmd) (c : cmd) (cs2 : list cmd) (gf : gfiles) (f : gpath),
-    nl_ok fixed_nl gf -> forallb wf_cmd (cs1 ++ c :: cs2) = true ->
-    snd (run_cmd RT build chk fixed_nl fixed_P5 (run_cmds RT build chk fixed_nl fixed_P5 gf cs1) c) = true ->
+         (fixed_nl fixed_P5 fixed_sn fixed_em : bool) (cs1 : list cmd) (c : cmd) (cs2 : list cmd) (gf : gfiles) (f : gpath),
+    nl_ok fixed_nl gf -> forallb (wf_cmd fixed_sn) (cs1 ++ c :: cs2) = true ->
+    snd (run_cmd RT build chk fixed_nl fixed_P5 fixed_sn fixed_em (run_cmds RT build chk fixed_nl fixed_P5 fixed_sn fixed_em gf cs1) c) = true ->
     (is_move c = true -> fixed_P5 = true) ->
     In f (file_targets c) ->
-    K_user_whitelist RT build chk fixed_nl (run_cmds RT build chk fixed_nl fixed_P5 gf cs1) c f = false ->
-    K_engine_mismatch RT build chk fixed_nl (run_cmds RT build chk fixed_nl fixed_P5 gf cs1) c f = false ->
-    ignored (run_cmds RT build chk fixed_nl fixed_P5 gf (cs1 ++ c :: cs2)) f = true.
+    K_user_whitelist RT build chk fixed_nl fixed_sn fixed_em (run_cmds RT build chk fixed_nl fixed_P5 fixed_sn fixed_em gf cs1) c f = false ->
+    K_engine_mismatch RT build chk fixed_nl fixed_sn fixed_em (run_cmds RT build chk fixed_nl fixed_P5 fixed_sn fixed_em gf cs1) c f = false ->
+    ignored (run_cmds RT build chk fixed_nl fixed_P5 fixed_sn fixed_em gf (cs1 ++ c :: cs2)) f = true.
 Proof. intros. now apply history_targets_ignored. Qed.
 Print Assumptions tracked_paths_git_ignored_history.
 
-(* the files below a directory target whose rule `/name/` was written are ignored, at any depth *)
+(* ... with both repairs: the only class left is the user's whitelisting *)
+Theorem tracked_paths_git_ignored_history_fixed :
+  forall (RT : Type) (build : env -> gfiles -> option RT) (chk : RT -> bytes -> verdict)
+         (fixed_nl fixed_P5 : bool) (cs1 : list cmd) (c : cmd) (cs2 : list cmd) (gf : gfiles) (f : gpath),
+    nl_ok fixed_nl gf -> forallb (wf_cmd true) (cs1 ++ c :: cs2) = true ->
+    snd (run_cmd RT build chk fixed_nl fixed_P5 true true (run_cmds RT build chk fixed_nl fixed_P5 true true gf cs1) c) = true ->
+    (is_move c = true -> fixed_P5 = true) ->
+    In f (file_targets c) ->
+    K_user_whitelist RT build chk fixed_nl true true (run_cmds RT build chk fixed_nl fixed_P5 true true gf cs1) c f = false ->
+    ignored (run_cmds RT build chk fixed_nl fixed_P5 true true gf (cs1 ++ c :: cs2)) f = true.
+Proof. intros. now apply history_targets_ignored_fixed. Qed.
+Print Assumptions tracked_paths_git_ignored_history_fixed.
+
+(* the files below a directory target whose rule `/name/` was written (keep_dir: the matcher said NoMatch --
+   with fixed_em: Git did not ignore the directory and the matcher did not say Whitelist) are ignored, at any depth *)
 Theorem tracked_directory_contents_ignored :
   forall (RT : Type) (build : env -> gfiles -> option RT) (chk : RT -> bytes -> verdict)
-         (fixed_nl fixed_P5 : bool) (gf : gfiles) (e : env) (dirs files : list gpath)
+         (fixed_nl fixed_P5 fixed_sn fixed_em : bool) (gf : gfiles) (e : env) (dirs files : list gpath)
          (par : gpath) (n : gname) (rest : gpath) (R1 : RT),
-    nl_ok fixed_nl gf -> wf_cmd (CTrack e dirs files) = true -> build e gf = Some R1 ->
-    In (par ++ [n]) dirs -> chk R1 (dir_str (par ++ [n])) = NoMatch -> rest <> [] ->
-    ignored (fst (run_cmd RT build chk fixed_nl fixed_P5 gf (CTrack e dirs files))) (par ++ [n] ++ rest) = true.
-Proof. intros. now apply (track_dir_contents_ignored RT build chk fixed_nl fixed_P5 gf e dirs files par n rest R1). Qed.
+    nl_ok fixed_nl gf -> wf_cmd fixed_sn (CTrack e dirs files) = true -> build e gf = Some R1 ->
+    In (par ++ [n]) dirs -> keep_dir RT chk fixed_em R1 gf (par ++ [n]) = true -> rest <> [] ->
+    ignored (fst (run_cmd RT build chk fixed_nl fixed_P5 fixed_sn fixed_em gf (CTrack e dirs files))) (par ++ [n] ++ rest) = true.
+Proof. intros. now apply (track_dir_contents_ignored RT build chk fixed_nl fixed_P5 fixed_sn fixed_em gf e dirs files par n rest R1). Qed.
 Print Assumptions tracked_directory_contents_ignored.
 
 (* what Git ignores stays ignored through every sequence of xvc commands (they only append lines that
    are not negations) *)
 Theorem ignored_stable_under_xvc :
   forall (RT : Type) (build : env -> gfiles -> option RT) (chk : RT -> bytes -> verdict)
-         (fixed_nl fixed_P5 : bool) (cs : list cmd) (gf : gfiles) (p : gpath),
-    nl_ok fixed_nl gf -> forallb wf_cmd cs = true ->
-    ignored gf p = true -> ignored (run_cmds RT build chk fixed_nl fixed_P5 gf cs) p = true.
+         (fixed_nl fixed_P5 fixed_sn fixed_em : bool) (cs : list cmd) (gf : gfiles) (p : gpath),
+    nl_ok fixed_nl gf -> forallb (wf_cmd fixed_sn) cs = true ->
+    ignored gf p = true -> ignored (run_cmds RT build chk fixed_nl fixed_P5 fixed_sn fixed_em gf cs) p = true.
 Proof. intros. now apply ignored_stable. Qed.
 Print Assumptions ignored_stable_under_xvc.
 
@@ -96,9 +165,9 @@ Print Assumptions ignored_stable_under_xvc.
    of xvc commands, every path below .xvc/b3, .xvc/b2, .xvc/s2, .xvc/s3 is ignored by Git *)
 Theorem cache_never_staged :
   forall (RT : Type) (build : env -> gfiles -> option RT) (chk : RT -> bytes -> verdict)
-         (fixed_nl fixed_P5 : bool) (cs : list cmd) (c : gname) (rest : gpath),
-    In c cache_dirs -> rest <> [] -> forallb wf_cmd cs = true ->
-    ignored (run_cmds RT build chk fixed_nl fixed_P5 init_gf cs) (xvc_name :: c :: rest) = true.
+         (fixed_nl fixed_P5 fixed_sn fixed_em : bool) (cs : list cmd) (c : gname) (rest : gpath),
+    In c cache_dirs -> rest <> [] -> forallb (wf_cmd fixed_sn) cs = true ->
+    ignored (run_cmds RT build chk fixed_nl fixed_P5 fixed_sn fixed_em init_gf cs) (xvc_name :: c :: rest) = true.
 Proof. intros. now apply cache_ignored. Qed.
 Print Assumptions cache_never_staged.
 
@@ -139,92 +208,118 @@ Definition n_sub : gname := [115; 117; 98].   Definition n_other : gname := [111
 Definition date0 : bytes := [84; 104; 117; 44; 32; 49; 32; 79; 99; 116; 32; 50; 48; 50; 54; 32; 50; 48; 58; 48; 55; 58; 50; 49; 32; 43; 48; 48; 48; 48].
 Definition env0 (dirs : list gpath) : env := {| e_dirs := dirs; e_date := date0 |}.
 
-Definition run1 (p17 nl p5 : bool) (gf : gfiles) (c : cmd) : gfiles :=
-  fst (run_cmd rules (xvc_build p17) (xvc_chk p17) nl p5 gf c).
-Definition refutes (p17 nl p5 : bool) (gf : gfiles) (c : cmd) (f : gpath) : bool :=
-  supported gf && mem_path f (file_targets c)
-  && snd (run_cmd rules (xvc_build p17) (xvc_chk p17) nl p5 gf c) && negb (ignored (run1 p17 nl p5 gf c) f).
+Definition run1 (p17 p35 nl p5 sn em : bool) (gf : gfiles) (c : cmd) : gfiles :=
+  fst (run_cmd rules (xvc_build p17 p35) (xvc_chk p17 p35) nl p5 sn em gf c).
+Definition refutes (p17 p35 nl p5 sn em : bool) (gf : gfiles) (c : cmd) (f : gpath) : bool :=
+  supported gf && mem_path f (file_targets c) && valid_path f
+  && snd (run_cmd rules (xvc_build p17 p35) (xvc_chk p17 p35) nl p5 sn em gf c) && negb (ignored (run1 p17 p35 nl p5 sn em gf c) f).
 
-Lemma refutes_sound p17 nl p5 gf c f : refutes p17 nl p5 gf c f = true -> ~ C16_full p17 nl p5.
+Lemma refutes_sound p17 p35 nl p5 sn em gf c f : refutes p17 p35 nl p5 sn em gf c f = true -> ~ C16_full p17 p35 nl p5 sn em.
 Proof.
   unfold refutes. intros H Hfull.
-  apply andb_true_iff in H as [H H4]. apply andb_true_iff in H as [H H3]. apply andb_true_iff in H as [H1 H2].
-  apply mem_path_In in H2. specialize (Hfull gf c f H1 H2 H3). unfold run1 in H4. rewrite Hfull in H4. discriminate.
+  apply andb_true_iff in H as [H H4]. apply andb_true_iff in H as [H H3]. apply andb_true_iff in H as [H Hv].
+  apply andb_true_iff in H as [H1 H2].
+  apply mem_path_In in H2. specialize (Hfull gf c f H1 H2 Hv H3). unfold run1 in H4. rewrite Hfull in H4. discriminate.
 Qed.
 
 (* P5: `xvc file move a.txt v.txt` (copy -> copy): the rename branch writes no rule *)
-Definition st_a_tracked : gfiles := run1 false false false init_gf (CTrack (env0 []) [] [[a_txt]]).
-Theorem move_dest_not_ignored_refuted : ~ C16_full false false false.
-Proof. apply (refutes_sound _ _ _ st_a_tracked (CMoveRename (env0 []) [[v_txt]]) [v_txt]). vm_compute. reflexivity. Qed.
+Definition st_a_tracked : gfiles := run1 false false false false false false init_gf (CTrack (env0 []) [] [[a_txt]]).
+Theorem move_dest_not_ignored_refuted : ~ C16_full false false false false false false.
+Proof. apply (refutes_sound _ _ _ _ _ _ st_a_tracked (CMoveRename (env0 []) [[v_txt]]) [v_txt]). vm_compute. reflexivity. Qed.
 (* with the repair the destination gets its rule *)
 Example move_dest_ignored_when_fixed :
-  ignored (run1 false false true st_a_tracked (CMoveRename (env0 []) [[v_txt]])) [v_txt] = true.
+  ignored (run1 false false false true false false st_a_tracked (CMoveRename (env0 []) [[v_txt]])) [v_txt] = true.
 Proof. vm_compute. reflexivity. Qed.
 
 (* P25 (root cause P17): sub/.gitignore contains `data.bin`; `xvc file track other/data.bin` *)
 Definition st_p25 : gfiles := init_gf ++ [([n_sub], data_bin ++ [10])].
 Definition c_p25 : cmd := CTrack (env0 [[n_sub]; [n_other]]) [] [[n_other; data_bin]].
-Theorem engine_mismatch_nonlocal_refuted : ~ C16_full false false false.
-Proof. apply (refutes_sound _ _ _ st_p25 c_p25 [n_other; data_bin]). vm_compute. reflexivity. Qed.
+Theorem engine_mismatch_nonlocal_refuted : ~ C16_full false false false false false false.
+Proof. apply (refutes_sound _ _ _ _ _ _ st_p25 c_p25 [n_other; data_bin]). vm_compute. reflexivity. Qed.
 Example p25_is_in_class_and_gone_with_locality :
-  K_engine_mismatch rules (xvc_build false) (xvc_chk false) false st_p25 c_p25 [n_other; data_bin] = true /\
-  K_engine_mismatch rules (xvc_build true) (xvc_chk true) false st_p25 c_p25 [n_other; data_bin] = false /\
-  ignored (run1 true false false st_p25 c_p25) [n_other; data_bin] = true.
+  K_engine_mismatch rules (xvc_build false false) (xvc_chk false false) false false false st_p25 c_p25 [n_other; data_bin] = true /\
+  K_engine_mismatch rules (xvc_build true true) (xvc_chk true true) false false false st_p25 c_p25 [n_other; data_bin] = false /\
+  ignored (run1 true true false false false false st_p25 c_p25) [n_other; data_bin] = true.
 Proof. vm_compute. repeat split. Qed.
 
-(* P26: root .gitignore `*.dat` / `!keep.dat`; `xvc file track keep.dat`: error, nothing appended *)
+(* P26: root .gitignore `*.dat` / `!keep.dat`; `xvc file track keep.dat`: error, nothing appended -- with
+   EVERY repair (the finding is open) *)
 Definition st_p26 : gfiles := [([], init_content ++ [42; 46; 100; 97; 116; 10; 33; 107; 101; 101; 112; 46; 100; 97; 116; 10])].
 Definition c_p26 : cmd := CTrack (env0 []) [] [[keep_dat]].
-Theorem user_whitelist_refuted : ~ C16_full true true true.
-Proof. apply (refutes_sound _ _ _ st_p26 c_p26 [keep_dat]). vm_compute. reflexivity. Qed.
+Theorem user_whitelist_refuted : ~ C16_full true true true true true true.
+Proof. apply (refutes_sound _ _ _ _ _ _ st_p26 c_p26 [keep_dat]). vm_compute. reflexivity. Qed.
 Example p26_is_in_class :
-  K_user_whitelist rules (xvc_build true) (xvc_chk true) true st_p26 c_p26 [keep_dat] = true /\
-  content (run1 true true true st_p26 c_p26) [] = content st_p26 [].
+  K_user_whitelist rules (xvc_build true true) (xvc_chk true true) true true true st_p26 c_p26 [keep_dat] = true /\
+  content (run1 true true true true true true st_p26 c_p26) [] = content st_p26 [].
 Proof. vm_compute. repeat split. Qed.
 
-(* anchored rules float: xvc's own `/a.txt` (written for a.txt) makes it skip d/a.txt -- with every repair *)
+(* anchored rules float: xvc's own `/a.txt` (written for a.txt) makes it skip d/a.txt -- with every repair
+   but fixed_em *)
 Definition c_da : cmd := CTrack (env0 [[n_d]]) [] [[n_d; a_txt]].
-Theorem engine_mismatch_anchored_refuted : ~ C16_full true true true.
-Proof.
-  apply (refutes_sound _ _ _ (run1 true true true init_gf (CTrack (env0 [[n_d]]) [] [[a_txt]])) c_da [n_d; a_txt]).
-  vm_compute. reflexivity.
-Qed.
+Definition st_a_root : gfiles := run1 true true true true true false init_gf (CTrack (env0 [[n_d]]) [] [[a_txt]]).
+Theorem engine_mismatch_anchored_refuted : ~ C16_full true true true true true false.
+Proof. apply (refutes_sound _ _ _ _ _ _ st_a_root c_da [n_d; a_txt]). vm_compute. reflexivity. Qed.
 Example anchored_is_in_class :
-  K_engine_mismatch rules (xvc_build true) (xvc_chk true) true
-    (run1 true true true init_gf (CTrack (env0 [[n_d]]) [] [[a_txt]])) c_da [n_d; a_txt] = true.
+  K_engine_mismatch rules (xvc_build true true) (xvc_chk true true) true true false st_a_root c_da [n_d; a_txt] = true.
 Proof. vm_compute. reflexivity. Qed.
+(* when Git decides (fixed_em), d/a.txt gets its own rule although xvc's matcher still says Ignore *)
+Example anchored_ignored_when_fixed :
+  xvc_chk true true (match xvc_build true true (env0 [[n_d]]) st_a_root with Some R => R | None => global_rules [] end) (render [n_d; a_txt]) = Ignore /\
+  ignored st_a_root [n_d; a_txt] = false /\
+  ignored (run1 true true true true true true st_a_root c_da) [n_d; a_txt] = true /\
+  content (run1 true true true true true true st_a_root c_da) [n_d] <> [].
+Proof. vm_compute. repeat split; discriminate. Qed.
 
 (* a name-only line of a nested file matched against the whole path: d/e/.gitignore = `e/`, track d/e/x.bin;
    the locality repair does not help (the path IS below d/e) *)
 Definition n_e : gname := [101].
 Definition st_above : gfiles := init_gf ++ [([n_d; n_e], [101; 47; 10])].
 Definition c_above : cmd := CTrack (env0 [[n_d]; [n_d; n_e]]) [] [[n_d; n_e; x_bin]].
-Theorem engine_mismatch_nested_above_refuted : ~ C16_full true true true.
-Proof. apply (refutes_sound _ _ _ st_above c_above [n_d; n_e; x_bin]). vm_compute. reflexivity. Qed.
+Theorem engine_mismatch_nested_above_refuted : ~ C16_full true true true true true false.
+Proof. apply (refutes_sound _ _ _ _ _ _ st_above c_above [n_d; n_e; x_bin]). vm_compute. reflexivity. Qed.
 Example nested_above_is_in_class :
-  K_engine_mismatch rules (xvc_build true) (xvc_chk true) true st_above c_above [n_d; n_e; x_bin] = true.
+  K_engine_mismatch rules (xvc_build true true) (xvc_chk true true) true true false st_above c_above [n_d; n_e; x_bin] = true.
+Proof. vm_compute. reflexivity. Qed.
+Example nested_above_ignored_when_fixed :
+  ignored (run1 true true true true true true st_above c_above) [n_d; n_e; x_bin] = true.
 Proof. vm_compute. reflexivity. Qed.
 
-(* names outside plain_name: m/a[1].txt is written as the character class `/a[1].txt` *)
+(* names outside plain_name: m/a[1].txt is written as the character class `/a[1].txt` -- with every repair
+   but fixed_sn *)
 Definition a1_txt : gname := [97; 91; 49; 93; 46; 116; 120; 116].
-Theorem special_name_refuted : ~ C16_full true true true.
-Proof.
-  apply (refutes_sound _ _ _ init_gf (CTrack (env0 [[n_m]]) [] [[n_m; a1_txt]]) [n_m; a1_txt]).
-  vm_compute. reflexivity.
-Qed.
-Example special_name_not_plain : plain_path [n_m; a1_txt] = false /\ plain_path [n_m; a_txt] = true.
-Proof. vm_compute. split; reflexivity. Qed.
+Definition c_blank : gname := [99; 32].                        (* `c ` *)
+Definition q_bs_w : gname := [113; 92; 119].                   (* q\w *)
+Definition l_nl_f : gname := [108; 10; 102].                   (* l<LF>f *)
+Definition c_special : cmd := CTrack (env0 [[n_m]]) [] [[n_m; a1_txt]; [n_m; c_blank]; [n_m; q_bs_w]; [n_m; l_nl_f]].
+Theorem special_name_refuted : ~ C16_full true true true true false true.
+Proof. apply (refutes_sound _ _ _ _ _ _ init_gf c_special [n_m; a1_txt]). vm_compute. reflexivity. Qed.
+Example special_name_class :
+  K_special_name false [n_m; a1_txt] = true /\ K_special_name false [n_m; a_txt] = false /\
+  K_special_name true [n_m; a1_txt] = false /\ K_special_name true [n_m; l_nl_f] = false /\
+  strict_name a1_txt = true /\ strict_name c_blank = true /\ strict_name q_bs_w = true /\
+  strict_name l_nl_f = false /\ valid_name l_nl_f = true.
+Proof. vm_compute. repeat split. Qed.
+(* with the escaping all four are ignored, the lines are `/a\[1\].txt`, `/c\ `, `/q\\w`, `/l?f`, and a sibling
+   a1.txt (what the unescaped character class matched) is NOT ignored *)
+Example special_names_ignored_when_fixed :
+  let gf := run1 true true true true true true init_gf c_special in
+  wf_cmd true c_special = true /\
+  ignored gf [n_m; a1_txt] = true /\ ignored gf [n_m; c_blank] = true /\ ignored gf [n_m; q_bs_w] = true /\
+  ignored gf [n_m; l_nl_f] = true /\ ignored gf [n_m; [97; 49; 46; 116; 120; 116]] = false /\ supported gf = true /\
+  escape_name a1_txt = [97; 92; 91; 49; 92; 93; 46; 116; 120; 116] /\ escape_name c_blank = [99; 92; 32] /\
+  escape_name q_bs_w = [113; 92; 92; 119] /\ escape_name l_nl_f = [108; 63; 102].
+Proof. vm_compute. repeat split. Qed.
 
 (* an unterminated last line: d/.gitignore = `*.bin` (no line break) ignores d/x.bin; tracking d/y.txt
    appends the block to that line and d/x.bin is no longer ignored.  Stability needs nl_ok. *)
 Definition st_unterm : gfiles := init_gf ++ [([n_d], [42; 46; 98; 105; 110])].
 Definition c_unterm : cmd := CTrack (env0 [[n_d]]) [] [[n_d; y_txt]].
 Theorem ignored_stable_refuted_unterminated :
-  exists gf cs p, supported gf = true /\ forallb wf_cmd cs = true /\ ignored gf p = true /\
-                  ignored (xvc_run false false false gf cs) p = false.
+  exists gf cs p, supported gf = true /\ forallb (wf_cmd false) cs = true /\ ignored gf p = true /\
+                  ignored (xvc_run false false false false false false gf cs) p = false.
 Proof. exists st_unterm, [c_unterm], [n_d; x_bin]. vm_compute. repeat split. Qed.
 Example unterminated_repaired_by_fixed_nl :
-  ignored (xvc_run false true false st_unterm [c_unterm]) [n_d; x_bin] = true /\
+  ignored (xvc_run false false true false false false st_unterm [c_unterm]) [n_d; x_bin] = true /\
   all_end_nl st_unterm = false.
 Proof. vm_compute. split; reflexivity. Qed.
 
@@ -234,18 +329,39 @@ Definition h_cmds : list cmd :=
   [CTrack (env0 [[n_d]]) [[n_d]] [[a_txt]; [n_d; b_txt]];
    CHandler (env0 [[n_d]; [n_x]]) [IgnDir [n_x]; IgnFile [n_x; b_txt]]].
 Example hypotheses_met :
-  nl_ok false init_gf /\ forallb wf_cmd h_cmds = true /\
+  nl_ok false init_gf /\ forallb (wf_cmd false) h_cmds = true /\
   (let c := CTrack (env0 [[n_d]]) [[n_d]] [[a_txt]; [n_d; b_txt]] in
-   snd (run_cmd rules (xvc_build false) (xvc_chk false) false false init_gf c) = true /\
-   K_user_whitelist rules (xvc_build false) (xvc_chk false) false init_gf c [a_txt] = false /\
-   K_engine_mismatch rules (xvc_build false) (xvc_chk false) false init_gf c [a_txt] = false /\
-   K_engine_mismatch rules (xvc_build false) (xvc_chk false) false init_gf c [n_d; b_txt] = false) /\
-  ignored (xvc_run false false false init_gf h_cmds) [a_txt] = true /\
-  ignored (xvc_run false false false init_gf h_cmds) [n_d; b_txt] = true /\
-  ignored (xvc_run false false false init_gf h_cmds) [n_x; b_txt] = true /\
+   snd (run_cmd rules (xvc_build false false) (xvc_chk false false) false false false false init_gf c) = true /\
+   K_user_whitelist rules (xvc_build false false) (xvc_chk false false) false false false init_gf c [a_txt] = false /\
+   K_engine_mismatch rules (xvc_build false false) (xvc_chk false false) false false false init_gf c [a_txt] = false /\
+   K_engine_mismatch rules (xvc_build false false) (xvc_chk false false) false false false init_gf c [n_d; b_txt] = false) /\
+  ignored (xvc_run false false false false false false init_gf h_cmds) [a_txt] = true /\
+  ignored (xvc_run false false false false false false init_gf h_cmds) [n_d; b_txt] = true /\
+  ignored (xvc_run false false false false false false init_gf h_cmds) [n_x; b_txt] = true /\
   ignored init_gf [a_txt] = false /\
-  content (xvc_run false false false init_gf h_cmds) [] <> content init_gf [].
+  content (xvc_run false false false false false false init_gf h_cmds) [] <> content init_gf [].
 Proof.
   split; [right; apply all_end_nl_content; vm_compute; reflexivity|].
   vm_compute. repeat split; discriminate.
+Qed.
+(* ... and of the statement with both repairs: a history with special names, a name that recurs in a
+   sub-directory (the former anchored-floats class) and the handler; every hypothesis of
+   tracked_paths_git_ignored_history_fixed holds and every target ends up ignored *)
+Definition h_fixed : list cmd :=
+  [CTrack (env0 [[n_d]; [n_m]]) [] [[a_txt]; [n_m; a1_txt]; [n_m; c_blank]];
+   CTrack (env0 [[n_d]; [n_m]]) [] [[n_d; a_txt]; [n_m; q_bs_w]];
+   CHandler (env0 [[n_d]; [n_m]; [n_x]]) [IgnDir [n_x]; IgnFile [n_x; a_txt]; IgnFile [n_d; a_txt]]].
+Example hypotheses_met_fixed :
+  nl_ok true init_gf /\ forallb (wf_cmd true) h_fixed = true /\
+  (let gf1 := xvc_run true true true true true true init_gf [CTrack (env0 [[n_d]; [n_m]]) [] [[a_txt]; [n_m; a1_txt]; [n_m; c_blank]]] in
+   let c := CTrack (env0 [[n_d]; [n_m]]) [] [[n_d; a_txt]; [n_m; q_bs_w]] in
+   snd (run_cmd rules (xvc_build true true) (xvc_chk true true) true true true true gf1 c) = true /\
+   K_user_whitelist rules (xvc_build true true) (xvc_chk true true) true true true gf1 c [n_d; a_txt] = false /\
+   ignored gf1 [n_d; a_txt] = false) /\
+  (let gf := xvc_run true true true true true true init_gf h_fixed in
+   ignored gf [a_txt] = true /\ ignored gf [n_d; a_txt] = true /\ ignored gf [n_m; a1_txt] = true /\
+   ignored gf [n_m; c_blank] = true /\ ignored gf [n_m; q_bs_w] = true /\ ignored gf [n_x; a_txt] = true /\
+   supported gf = true).
+Proof.
+  split; [now left|]. vm_compute. repeat split.
 Qed.
